@@ -6,6 +6,7 @@ import sympy as sp
 from .. import callsites as CS
 from .. import credit as CR
 from .. import effects as E
+from .. import normalize as NZ
 from .. import routes as RT
 from .. import summary as SM
 from .. import symx as SX
@@ -153,6 +154,14 @@ def expand_aliases(fc, e, at):
                     if isinstance(v, (ast.Attribute, ast.Call)) and norm_src(v).startswith("self.") and \
                             not fc.stores_between(ds[0][0], at, CS.deps(v) - {"self"}, ()):
                         return ast.parse(norm_src(v), mode="eval").body
+                    # a local alias of an element / layer expression (layer = node_list[h]): the same object as long as
+                    # nothing the expression reads is stored, and the tree does not grow, on any path from the definition
+                    if isinstance(v, ast.Subscript) and not isinstance(v.slice, ast.Slice) and \
+                            all(isinstance(x, (ast.Name, ast.Subscript, ast.Constant, ast.Load, ast.Attribute, ast.UnaryOp, ast.USub, ast.BinOp,
+                                               ast.Add, ast.Sub)) for x in ast.walk(v)) and \
+                            not fc.stores_between(ds[0][0], at, CS.deps(v), ()) and \
+                            (NZ.stable_index(v.slice) or not fc.growth_between(ds[0][0], at)):
+                        return self.visit(ast.parse(norm_src(v), mode="eval").body)
             return n
     return S().visit(ast.parse(ast.unparse(e), mode="eval").body)
 
@@ -169,6 +178,16 @@ def pair_attr_receiver(ctx, cls, fc, recv_src, rets):
         val = r.value
         if isinstance(val, ast.Call) and isinstance(val.func, ast.Attribute) and val.func.attr in ("get_cpoint", "sample_uniform"):
             R = expand_aliases(fc, val.func.value, at)
+            # a cell is handed out: the finished flag (under which receive_reward credits nothing) must not be set on the way
+            g = FINISHED_GUARDS.get(cls.name)
+            want = g[0].replace("not ", "").strip() if g else None
+            if want and want.startswith("self.") and want[5:].isidentifier():
+                ds_f, _entry = fc.reaching(want, at)
+                bad_f = [n for n, rr in ds_f if not (rr[0] == "assign" and isinstance(rr[1], ast.Constant) and rr[1].value is g[1])]
+                ctx.ob("R04-PAIR", not bad_f, cls.file, fc.qual, "%s  [finished flag]" % norm_src(r),
+                       "the finished flag is not set on the way to this hand-out" if not bad_f else
+                       "%s is set (line %s) on a path that still hands out a cell: receive_reward will drop the reward of that evaluation" % (
+                           want, bad_f[0].line), r.lineno)
         elif isinstance(val, ast.Call) and norm_src(val) == "self.get_last_point()":
             g = FINISHED_GUARDS.get(cls.name)
             flag = None
